@@ -260,7 +260,8 @@ func (m *Metrics) onMetrics(ctx *gin.Context) {
 
 	var out strings.Builder
 
-	if (typ == "" || typ == metricsTypePaths) && (!anyFilterActive || pathFilter != "") {
+	if !interfaceIsEmpty(pathManager) &&
+		(typ == "" || typ == metricsTypePaths) && (!anyFilterActive || pathFilter != "") {
 		data, err := pathManager.APIPathsList()
 		if err == nil && len(data.Items) != 0 {
 			out.WriteString("# Paths\n")
@@ -346,7 +347,8 @@ func (m *Metrics) onMetrics(ctx *gin.Context) {
 		}
 	}
 
-	if (typ == "" || typ == metricsTypeForwardDests) &&
+	if !interfaceIsEmpty(pathManager) &&
+		(typ == "" || typ == metricsTypeForwardDests) &&
 		(!anyFilterActive || pathFilter != "" || forwardFilter != "") {
 		data, err := pathManager.APIPathsList()
 		if err == nil {
